@@ -66,6 +66,11 @@ def check_generic(c):
     y = CfdpLv.unpack(buf)
     scribble(buf)
     eq(devs, "lv.dec.value_after_caller_reused_buffer", bytes(y.value), v)
+    # a decoded LV is filled in by its owner afterwards (plain attributes); decoding the same octets again gives the original again
+    y.value = b"changed"
+    y.value_len = 7
+    y2 = CfdpLv.unpack(wl + tail)
+    eq(devs, "lv.dec.again_after_earlier_result_was_modified", (bytes(y2.value), y2.value_len, bytes(y2.pack())), (v, len(v), wl))
     eq(devs, "lv.packet_len", lv.packet_len, len(v) + 1)
     for tag, buf in (("exact", wl), ("tail", wl + tail), ("bytearray", bytearray(wl + tail))):
         y = CfdpLv.unpack(buf)
@@ -167,6 +172,11 @@ def check_concrete(d):
     x = M.build_tlv(d)
     pack_fresh(devs, "enc.pack", x.pack, want)
     eq(devs, "enc.packet_len", x.packet_len, len(want))
+    if kind == "fsresp" and d["status"] in (0, 15):
+        # the generic status members (SUCCESS = 0b0000, NOT_PERFORMED = 0b1111) combined with any action code
+        xg = T.FileStoreResponseTlv(T.FilestoreActionCode(d["action"]), T.FilestoreResponseStatusCode(d["status"]), d["n1"], d["n2"], CfdpLv(bytes.fromhex(d["msg"])))
+        eq(devs, "enc.generic_status_member.pack", bytes(xg.pack()), want)
+        eq(devs, "enc.generic_status_member.packet_len", xg.packet_len, len(want))
     if kind in ("fault", "fsreq", "fsresp"):
         xi = M.build_tlv(d, plain_ints=True)
         eq(devs, "enc.plain_int_parameters.pack", bytes(xi.pack()), want)
@@ -287,6 +297,48 @@ def check_foreign(c):
     return devs
 
 
+def enum_locale(tier, shard, nshards, rng):
+    if shard == 0:
+        yield {"names": ["müll.txt", "测试.bin", "e\u0301", "plain.txt", "𝄞"]}
+
+
+def check_locale(c):
+    """File names are UTF-8 on the wire whatever the process locale / filesystem encoding is: a child interpreter started under an
+    ASCII locale with UTF-8 mode switched off packs filestore TLVs and a Metadata PDU; the octets must equal the reference."""
+    import json
+    import subprocess
+    import sys
+
+    from ..core import REPO
+
+    prog = (
+        "import sys, json; sys.path.insert(0, sys.argv[1])\n"
+        "from spacepackets.cfdp import tlv as T\n"
+        "from spacepackets.cfdp.lv import CfdpLv\n"
+        "names = json.loads(sys.argv[2]); out = {}\n"
+        "for n in names:\n"
+        "    try:\n"
+        "        out[n] = [bytes(T.FileStoreRequestTlv(T.FilestoreActionCode(2), n, n).pack()).hex(),\n"
+        "                  bytes(T.FileStoreResponseTlv(T.FilestoreActionCode(0), T.FilestoreResponseStatusCode(0), n, '', CfdpLv(b'')).pack()).hex(),\n"
+        "                  T.FileStoreRequestTlv(T.FilestoreActionCode(2), n, n).packet_len, bytes(CfdpLv.from_str(n).pack()).hex()]\n"
+        "    except Exception as e:\n"
+        "        out[n] = ['EXC', type(e).__name__, str(e)[:80]]\n"
+        "sys.stdout.buffer.write(json.dumps(out).encode('ascii'))\n"
+    )
+    env = {"PATH": "/usr/bin:/bin", "LC_ALL": "C", "LANG": "C", "PYTHONUTF8": "0", "PYTHONCOERCECLOCALE": "0", "PYTHONDONTWRITEBYTECODE": "1", "PYTHONHASHSEED": "0"}
+    r = subprocess.run([sys.executable, "-B", "-c", prog, REPO, json.dumps(c["names"])], env=env, capture_output=True, timeout=120)
+    if r.returncode != 0:
+        raise RuntimeError("child interpreter failed: " + r.stderr.decode("ascii", "replace")[-400:])
+    got = json.loads(r.stdout.decode("ascii"))
+    devs = []
+    for n in c["names"]:
+        req = R.tlv_bytes({"t": "fsreq", "action": 2, "n1": n, "n2": n})
+        resp = R.tlv_bytes({"t": "fsresp", "action": 0, "status": 0, "n1": n, "n2": "", "msg": ""})
+        want = [req.hex(), resp.hex(), len(req), R.lv(n.encode("utf-8")).hex()]
+        eq(devs, "ascii_locale.octets", got.get(n), want, f"name {n!r} packed under LC_ALL=C, PYTHONUTF8=0")
+    return devs, len(c["names"])
+
+
 CLAUSES = [
     Clause(
         id="C08.generic",
@@ -334,6 +386,13 @@ CLAUSES = [
         n={"quick": 1000, "thorough": 6000},
     ),
 ]
+
+CLAUSES.append(Clause(
+    id="C08.locale",
+    doc="file names are encoded as UTF-8 whatever the process locale is: filestore TLVs and LVs packed in a child interpreter under LC_ALL=C with UTF-8 mode off equal the reference octets",
+    kind="enum", enum=enum_locale, check=check_locale, classify=lambda c: ["ascii locale"], required=["ascii locale"], shards={"quick": 1, "thorough": 1}, weight_by_evals=True,
+    rule="each name is one evaluation",
+))
 
 PROPERTY = Property(
     id="C08",
